@@ -11,6 +11,7 @@ EXPLANATION = (
     "Distances, ordering and exactness of search results are not decided."
     " C31.3: every method of a cache-owning store that writes the backing store also updates or invalidates the cache."
     " C31.4: in HnswIndex::insert a neighbour list is truncated only under len > 2*m (the bound in the property's small-index exactness clause)."
+    " C31.5: HnswIndex::search hands the base-layer search a width derived from params.ef_search that passes through no `min` / `clamp`, and the default ef_search is at least 2*m + 1 (the size up to which results must be exact)."
 )
 
 BTREE = "nervusdb_storage::index::btree::BTree"
@@ -23,6 +24,7 @@ INSERT_VECTOR = M.ENGINE + "::insert_vector"
 def run(ctx):
     F = ctx.facts
     ctx.rule("C31.1", "local BTree owners read root() after every insert/delete on all success paths")
+    search_width_rule(ctx)
     ctx.rule("C31.2", "struct-held BTrees expose their root and the vector-insert path persists it in the catalog")
     n_local = 0
     field_owners = {}
@@ -173,3 +175,54 @@ def run(ctx):
         ctx.oblige(ok, "C31.4", "HnswIndex::insert:truncate#%d-threshold" % k,
                    "a neighbour list is truncated under `%s` instead of `len > 2*m`: with exactly 2*m + 1 vectors a hub loses links, some vector becomes "
                    "unreachable and the small-index search is no longer exact" % why, tc.loc())
+
+
+HNSW = "nervusdb_storage::index::hnsw::logic::HnswIndex"
+HPARAMS = "nervusdb_storage::index::hnsw::params::HnswParams"
+
+
+def search_width_rule(ctx, rid="C31.5"):
+    """the base-layer search runs with the configured width ef_search, never narrowed by k; the default width covers a small index"""
+    from ..facts import op_local, op_const
+    from ..mirutil import backward_slice
+    F = ctx.facts
+    ctx.rule(rid, "HnswIndex::search hands search_layer a width that derives from params.ef_search and passes no `min` (exactness for an index of at most "
+             "2m+1 vectors needs the base-layer search to visit every node); the default ef_search is at least 2*m + 1")
+    cands = [i for i in F.bodies if i.startswith(HNSW) and i.endswith("::search")]
+    ctx.floor(rid, "HnswIndex::search bodies", len(cands), 1)
+    n = 0
+    for i in cands:
+        b = F.bodies[i]
+        for c in b.calls():
+            if not c.name.endswith("::search_layer") or len(c.args) < 6:
+                continue
+            layer = op_const(c.args[5])
+            if layer is None or layer.get("v") != 0:
+                continue
+            n += 1
+            ef = op_local(c.args[4])
+            calls, fields = backward_slice(b, ef, depth=12) if ef is not None else ([], set())
+            from_ef = any(f[0] == "ef_search" for f in fields)
+            narrowed = [x.name for x in calls if x.declared.endswith("::min") or x.name.endswith("::min") or x.name.endswith("::clamp")]
+            ctx.instance(rid, "search: base-layer width from ef_search=%s, narrowing calls=%s" % (from_ef, narrowed or "none"))
+            ctx.oblige(from_ef and not narrowed, rid, "%s:search:base-layer-width" % rid,
+                       "the base-layer search width is %s: with a width of k the search is greedy and stops at a local minimum, so a small index no longer returns "
+                       "exactly the k nearest" % ("narrowed by %s" % narrowed[0].split("::")[-1] if narrowed else "not derived from params.ef_search"), c.loc())
+    ctx.floor(rid, "base-layer search_layer calls", n, 1)
+    # default parameters
+    d = [i for i in F.bodies if HPARAMS in i and i.endswith("::default")]
+    ctx.floor(rid, "HnswParams::default", len(d), 1)
+    for i in d:
+        b = F.bodies[i]
+        vals = {}
+        for blk in b.blocks:
+            for st in blk["s"]:
+                if st[0] == "a" and st[2][0] == "agg" and st[2][1] == "adt" and st[2][2] == HPARAMS:
+                    for name, op in zip(st[2][5], st[2][4]):
+                        k = op_const(op)
+                        if k is not None:
+                            vals[name] = k.get("v")
+        ok = isinstance(vals.get("m"), int) and isinstance(vals.get("ef_search"), int) and vals["ef_search"] >= 2 * vals["m"] + 1
+        ctx.instance(rid, "HnswParams::default: m=%s ef_search=%s" % (vals.get("m"), vals.get("ef_search")))
+        ctx.oblige(ok, rid, "%s:default:ef_search-below-2m+1" % rid, "the default search width (%s) does not cover an index of 2*m+1 = %s vectors" %
+                   (vals.get("ef_search"), (2 * vals["m"] + 1) if isinstance(vals.get("m"), int) else "?"), b.file)
